@@ -1,11 +1,51 @@
-"""Registry: property id -> contract modules serving it + evidence metadata."""
+"""Registry: property id -> contract modules serving it + evidence / manifest metadata."""
+
+_TB = ["z3 5.1 (in-process, wheel)", "cvc5 1.0.3 CLI (second opinion on z3 'unknown')",
+       "CPython 3.12 data-model dispatch (operators, truth tests, __index__, __format__ reach the proxies)",
+       "symx engine (self-test: every proxy operator cross-checked against CPython on every run of ./vf selftest)"]
+
+_AS_COMMON = [
+    "amoco is verified as the test-suite runs it: without its optional z3 back end (amoco.cas.smt inactive)",
+    "Python integers are mathematical (unbounded): int mode is exact; bv mode checks on every operation that the tracked interval fits the working width and gives up (undecided) otherwise",
+    "amoco hashes/compares expressions by their text; str hashes are assumed collision free (amoco assumes the same)",
+]
 
 REGISTRY = {
     "C01": {
         "modules": ["contracts.cas_kernel", "contracts.cas_trees"],
         "category": "other",
-        "explanation": "contract-based verification of the real code (symx): proof-level obligations for the constant kernel at every width, bounded symbolic verification for expression trees",
-        "trusted_base": ["z3 5.1 (in-process)", "cvc5 1.0.3 (fallback)", "CPython 3.12 data-model dispatch", "specs/refsem.py (reference bit-vector semantics)"],
-        "assumptions": [],
+        "technique": "contract-based deductive verification of the real code: symbolic execution of /repo's functions on z3-backed integer proxies, one VC per contract clause and path (z3, cvc5); proof-level for the constant kernel at all widths, bounded (tree depth) for rewrite rules",
+        "level_text": "Constant kernel (every cst operator, ror/rol/ltu/geu, value, slicing, extensions): contracts discharged for ALL operand values at the widths of the tier (quick: 14 widths 1..128, thorough: every width 1..128) - proof level, reported separately. Rewrite/eval rules (oper, simplify, eqn helpers, comp, slc, tst, extend, mapper eval): bounded symbolic verification - all register valuations, recipes enumerated to depth 3 over 6 (quick) / 11 (thorough) widths. The check's level is that of its weakest deciding component (bounded), hence 'other'.",
+        "level_note": "trusted: z3/cvc5, CPython dispatch, the symx engine and shims, specs/refsem.py and specs/den.py (reference semantics and independent walker). Not covered: trees deeper than 3; constants outside the boundary set; signed division above 9 bits is attempted with a non-linear encoding and only counted when decided; ordered comparisons / division / widening multiply only over operands whose signedness is declared by registers, constants and + - * (bitwise results are 'unsigned' by amoco's own convention).",
+        "design_ref": "DESIGN.md sections 2, 4 (C01)",
+        "explanation": "contract-based verification of the real code (symx): proof-level obligations for the constant kernel, bounded symbolic verification (all valuations, trees up to depth 3) for the rewrite and evaluation rules; see proof_level and bounded_symbolic",
+        "trusted_base": _TB + ["specs/refsem.py (reference bit-vector semantics)", "specs/den.py (independent denotation walker)"],
+        "assumptions": _AS_COMMON,
     },
+    "C12": {
+        "modules": ["contracts.cas_kernel", "contracts.cas_trees"],
+        "category": "other",
+        "technique": "contract-based deductive verification of the real code: width clause of every kernel/tree contract plus the comp tiling invariant, discharged on symbolic inputs (z3)",
+        "level_text": "Same obligations as C01 restricted to the width clauses (result.size == width the construction dictates; every comp reachable in a result tiles [0,size) and smask names the covering part; slices in range), with independently seeded recipes. Kernel: all values, listed widths (proof level). Trees: bounded by depth 3.",
+        "level_note": "as C01; widths are concrete on every path, so a width clause holds for all valuations of the path.",
+        "design_ref": "DESIGN.md section 4 (C12/C13)",
+        "explanation": "width clauses of the C01 contracts (kernel: proof level; trees: bounded symbolic), recipes seeded independently of C01",
+        "trusted_base": _TB + ["specs/den.py check_widths / comp tiling checker"],
+        "assumptions": _AS_COMMON,
+    },
+    "C13": {
+        "modules": ["contracts.cas_kernel", "contracts.cas_trees"],
+        "category": "other",
+        "technique": "contract-based deductive verification of the real code: frame clause (every operand keeps width and denotation) of every kernel/tree contract, discharged on symbolic inputs (z3)",
+        "level_text": "Frame clauses of the C01 contracts: every expression the API handed out while building (every operand) keeps its width and, for ALL valuations, its denotation (independent walker) after the parent was built, simplified (with/without bitslice/widening) or evaluated in a map. Kernel operands: (size, v) unchanged. Bounded by tree depth 3. Pickle round trip: not covered by this check yet.",
+        "level_note": "as C01. The sign flag of a constant is not part of its value; re-flagging of shared registers is covered by C10.",
+        "design_ref": "DESIGN.md section 4 (C12/C13)",
+        "explanation": "frame clauses (operands unchanged: width and denotation for all valuations) of the C01 contracts; bounded symbolic verification",
+        "trusted_base": _TB + ["specs/den.py"],
+        "assumptions": _AS_COMMON,
+    },
+}
+
+NOT_APPLICABLE = {
+    "C07": "the oracle is the behaviour of two external programs (binutils, LLVM): no contract on amoco's functions can state it without hand-writing a model of those decoders; a vendored table comparison is example-based testing, a different family",
 }
